@@ -144,6 +144,11 @@ def strip_views(t):
             if a is b:
                 t = a
                 continue
+        if t.op == 'unpack' and t.args[3] is None and isinstance(t.args[0], T) and t.args[0].op in ('tuple', 'list') \
+                and len(t.args[0].args[0]) == t.args[2] and not any(isinstance(x, T) and x.op == 'star' for x in t.args[0].args[0]):
+            # a, b = x, y : the i-th target is the i-th element
+            t = t.args[0].args[0][t.args[1]]
+            continue
         break
     return t
 
@@ -236,9 +241,28 @@ def call_arg(t, pos=None, name=None):
     return None
 
 
+# equivalent spellings of the same numpy operation (method / function form, aliases): call_parts puts the receiver first,
+# so the positional layout is identical
+CANON = {
+    'method:sum': 'numpy.sum', 'method:mean': 'numpy.mean', 'method:max': 'numpy.amax', 'numpy.max': 'numpy.amax', 'method:min': 'numpy.amin',
+    'numpy.min': 'numpy.amin', 'method:prod': 'numpy.prod', 'method:reshape': 'numpy.reshape', 'method:swapaxes': 'numpy.swapaxes',
+    'method:transpose': 'numpy.transpose', 'method:squeeze': 'numpy.squeeze', 'method:argmax': 'numpy.argmax', 'method:argmin': 'numpy.argmin',
+    'method:cumsum': 'numpy.cumsum', 'method:cumprod': 'numpy.cumprod', 'method:conj': 'numpy.conj', 'method:conjugate': 'numpy.conj',
+    'numpy.conjugate': 'numpy.conj', 'numpy.absolute': 'numpy.abs', 'method:copy': 'numpy.copy', 'method:all': 'numpy.all', 'method:any': 'numpy.any',
+    'method:clip': 'numpy.clip', 'method:trace': 'numpy.trace', 'method:ravel': 'numpy.ravel', 'numpy.fmax': 'numpy.maximum', 'numpy.fmin': 'numpy.minimum',
+    'method:std': 'numpy.std', 'method:var': 'numpy.var', 'numpy.true_divide': 'numpy.divide',
+}
+
+
+def canon(name):
+    return CANON.get(name, name)
+
+
 def is_call_to(t, *names):
     n, _, _ = call_parts(t)
-    return n in names
+    if n is None:
+        return False
+    return canon(n) in {canon(x) for x in names}
 
 
 REDUCERS = {'numpy.sum': 1, 'numpy.mean': 1, 'numpy.amax': 1, 'numpy.max': 1, 'numpy.amin': 1, 'numpy.min': 1, 'numpy.prod': 1,
@@ -347,6 +371,10 @@ def data_terms(t, seen=None, into_mu=True):
             continue
         if x.op == 'call' and x.args[0].op == 'ref' and x.args[0].args[0] == ('builtin', 'len'):
             continue
+        if x.op == 'unpack' and x.args[3] is None and isinstance(x.args[0], T) and x.args[0].op in ('tuple', 'list') \
+                and len(x.args[0].args[0]) == x.args[2] and not any(isinstance(y, T) and y.op == 'star' for y in x.args[0].args[0]):
+            stack.append(x.args[0].args[0][x.args[1]])
+            continue
         yield x
         for a in x.args:
             if isinstance(a, T):
@@ -377,3 +405,28 @@ def ret_alts(graph):
         seen.add(id(x))
         out.append(x)
     return out
+
+
+def struct_eq_modulo(a, b, pairs, depth=0):
+    """structural equality of two terms where the designated pairs of leaves (x in a, y in b) count as equal"""
+    if a is b:
+        return True
+    if depth > 60:
+        return False
+    if isinstance(a, T) and isinstance(b, T):
+        for x, y in pairs:
+            if (a is x and b is y):
+                return True
+        a2, b2 = strip_views(a), strip_views(b)
+        if a2 is not a or b2 is not b:
+            return struct_eq_modulo(a2, b2, pairs, depth + 1)
+        if a.op != b.op or len(a.args) != len(b.args):
+            return False
+        if a.op == 'param':
+            return a.args == b.args and a.fn is b.fn
+        if a.op in ('mu', 'elem'):
+            return False
+        return all(struct_eq_modulo(x, y, pairs, depth + 1) for x, y in zip(a.args, b.args))
+    if isinstance(a, tuple) and isinstance(b, tuple) and len(a) == len(b):
+        return all(struct_eq_modulo(x, y, pairs, depth + 1) for x, y in zip(a, b))
+    return a == b
